@@ -258,6 +258,7 @@ CONFIGS = {
     "asan20": ("c++20", "-O1 -g -DNDEBUG -fcoroutines -fsanitize=address,undefined -fno-sanitize-recover=all", False),
     "shimasan17": ("c++17", "-O1 -g -DNDEBUG -fsanitize=address,undefined -fno-sanitize-recover=all", True),
     "shimasan20": ("c++20", "-O1 -g -DNDEBUG -fcoroutines -fsanitize=address,undefined -fno-sanitize-recover=all", True),
+    "shimdbg20": ("c++20", "-O0 -g -fcoroutines", True),     # asserts + async stacks on, under schedule control (C20: coroutine path)
     "dbg17": ("c++17", "-O0 -g -DUNIFEX_LOG_DANGLING_STOP_CALLBACKS=0", False),
     "dbg20": ("c++20", "-O0 -g -fcoroutines", False),
     "vis17": ("c++17", "-O1 -g -DNDEBUG -DUNIFEX_ENABLE_CONTINUATION_VISITATIONS=1", False),
